@@ -94,7 +94,7 @@ def _digest(key) -> bytes:
     return hashlib.blake2b(repr(key).encode("utf-8", "backslashreplace"), digest_size=8).digest()
 
 
-class BudgetHit(Exception):
+class BudgetHit(BaseException):
     pass
 
 
@@ -544,7 +544,7 @@ def main(argv=None):
         jobs = a.jobs
     else:
         jobs = min(nshards, os.cpu_count() or 1)
-    budget = getattr(mod, "BUDGET_S", (120, 3600))
+    budget = getattr(mod, "BUDGET_S", (300, 7200))
     budget_s = float(os.environ.get("VERIF_BUDGET_S", budget[1] if a.tier == "thorough" else budget[0]))
     tasks = [(pid, a.tier, seed, k, nshards, budget_s) for k in range(nshards)]
     results = []
